@@ -24,6 +24,7 @@ pub mod iters;
 pub mod lanes;
 pub mod dispatch;
 pub mod memmem_h;
+#[cfg(not(vcfg_x86none))]
 pub mod c17;
 pub mod pseudo;
 #[cfg(vcfg_x86std)]
